@@ -1,10 +1,18 @@
 // C11 — WebSocket framing: the real WebSocket::receive()/send() run over scripted in-memory connections (vnet) against an
-// independent RFC 6455 framer/deframer; every payload length, mask pattern, fragmentation with interleaved pings, every
-// 2-byte header x extended length with every cut; and the client/server handshake under all interleavings (vsched).
+// independent RFC 6455 framer/deframer. Every received stream is first interpreted by the reference deframer (the MODEL: which
+// messages are wholly contained, which pings must be answered, whether a Close frame ends it, whether the stream is malformed),
+// then the real receive() loop is run on it and compared: payload lengths, mask patterns, fragmentation with interleaved control
+// frames (ping / pong / close, one or two per stream), every stream cut at every byte offset, non-canonical length forms, every
+// 2-byte header x extended length with every cut; the documented accessors of the returned message; send() in all overloads and
+// frame types; the server handshake in many request shapes (also through HttpServer::link), connect() against a scripted server
+// whose response is cut at every byte; and the client/server handshake + echo under all interleavings (vsched).
 #include <asl/WebSocket.h>
+#include <asl/HttpServer.h>
 #include <asl/Socket.h>
 #include <asl/Thread.h>
+#include <asl/Var.h>
 #include <set>
+#include <map>
 #include "vf.h"
 #include "aslx.h"
 #include "vsched.h"
@@ -13,6 +21,8 @@ using namespace asl;
 using vf::fmt;
 
 static int W_BADALLOC, C_EVAL, C_DIST, C_EXEC, C_POINTS, W_LEN16, W_LEN64, W_MASKED, W_FRAG, W_PING_BETWEEN, W_HOSTILE_CLOSED, W_HOSTILE_MSG, W_NEG64, W_HANDSHAKE, W_PREEMPT;
+static int W_CUT, W_CUT_INFRAME, W_CUT_MIDMSG, W_CLOSE, W_CLOSE_REASON, W_CLOSE_MID, W_PONG_IN, W_PING_EMPTY, W_PING125, W_TWO_CTL, W_ACC, W_NUL, W_NONCANON, W_BIGFRAG, W_BIGLEN, W_CHUNKED,
+	W_SEND_FORMS, W_VAR, W_AKX, W_AKX_NOSPACE, W_AKX_HTTP, W_CONN, W_CONN_FAIL, W_CONN_OK, W_ECHO_BIG, W_HOSTILE_STRICT, W_PONGS_CHECKED, W_CLOSE_CODE;
 static std::string g_case;
 static void onFatal(const char* what, const std::string& schedule) {
 	std::string w = what;
@@ -20,9 +30,11 @@ static void onFatal(const char* what, const std::string& schedule) {
 	vf::violation(w == "STEP_LIMIT" ? "no_termination" : w == "DEADLOCK" ? "deadlock" : "livelock", std::string(what) + " in " + g_case + (schedule.size() < 400 ? " schedule " + schedule : ""), g_case);
 	vf::restart_worker();
 }
+// a failure class listed as "known:" is counted, not reported (every class has its own exact signature)
+static void report(const std::string& sig, const std::string& desc, const std::string& kase) { if (vf::known(sig)) vf::known_hit(sig, desc + "; case " + kase); else vf::violation(sig, desc, kase); }
 
 // ---------------------------------------------------------------- reference RFC 6455 framer / deframer
-struct Frame { bool fin; int opcode; bool masked; unsigned char key[4]; std::string payload; int lenMode; }; // lenMode 0 canonical, 1 force 16-bit, 2 force 64-bit
+struct Frame { bool fin; int rsv; int opcode; bool masked; unsigned char key[4]; std::string payload; int lenMode; }; // lenMode 0 canonical, 1 force 16-bit, 2 force 64-bit
 static std::string frameBytes(const Frame& f, uint64_t overrideLen = 0, bool useOverride = false) {
 	std::string s;
 	s += (char)((f.fin ? 0x80 : 0) | (f.opcode & 0x0f));
@@ -32,28 +44,70 @@ static std::string frameBytes(const Frame& f, uint64_t overrideLen = 0, bool use
 	else if (mode == 1) { s += (char)((f.masked ? 0x80 : 0) | 126); s += (char)(n >> 8); s += (char)n; }
 	else { s += (char)((f.masked ? 0x80 : 0) | 127); for (int i = 7; i >= 0; i--) s += (char)(n >> (8 * i)); }
 	if (f.masked) s.append((const char*)f.key, 4);
-	for (size_t i = 0; i < f.payload.size(); i++) s += f.masked ? (char)(f.payload[i] ^ f.key[i & 3]) : f.payload[i];
+	size_t at = s.size(); s.append(f.payload);
+	if (f.masked) for (size_t i = 0; i < f.payload.size(); i++) s[at + i] = (char)(f.payload[i] ^ f.key[i & 3]);
 	return s;
 }
-// parses one frame from the start of s; returns bytes consumed or 0 if malformed/incomplete
-static size_t parseFrame(const std::string& s, Frame& f, bool* canonical) {
-	if (s.size() < 2) return 0;
-	f.fin = (s[0] & 0x80) != 0; f.opcode = s[0] & 0x0f; f.masked = (s[1] & 0x80) != 0;
-	uint64_t n = s[1] & 0x7f; size_t p = 2; *canonical = true;
-	if (n == 126) { if (s.size() < 4) return 0; n = ((unsigned char)s[2] << 8) | (unsigned char)s[3]; p = 4; if (n < 126) *canonical = false; }
-	else if (n == 127) { if (s.size() < 10) return 0; n = 0; for (int i = 0; i < 8; i++) n = (n << 8) | (unsigned char)s[2 + i]; p = 10; if (n < 65536) *canonical = false; }
-	if (f.masked) { if (s.size() < p + 4) return 0; memcpy(f.key, s.data() + p, 4); p += 4; }
-	if (s.size() < p + n) return 0;
-	f.payload.assign(s.data() + p, n);
+// parses one frame at offset `at` of s; returns bytes consumed or 0 if the stream ends inside the frame
+static size_t parseFrameAt(const std::string& s, size_t at, Frame& f, bool* canonical) {
+	size_t av = s.size() - at; const unsigned char* q = (const unsigned char*)s.data() + at;
+	if (av < 2) return 0;
+	f.fin = (q[0] & 0x80) != 0; f.rsv = (q[0] >> 4) & 7; f.opcode = q[0] & 0x0f; f.masked = (q[1] & 0x80) != 0; f.lenMode = 0;
+	uint64_t n = q[1] & 0x7f; size_t p = 2; *canonical = true;
+	if (n == 126) { if (av < 4) return 0; n = (q[2] << 8) | q[3]; p = 4; if (n < 126) *canonical = false; }
+	else if (n == 127) { if (av < 10) return 0; n = 0; for (int i = 0; i < 8; i++) n = (n << 8) | q[2 + i]; p = 10; if (n < 65536 || (n >> 63)) *canonical = false; }
+	if (f.masked) { if (av < p + 4) return 0; memcpy(f.key, q + p, 4); p += 4; }
+	if (n > av - p) return 0;
+	f.payload.assign((const char*)q + p, (size_t)n);
 	if (f.masked) for (size_t i = 0; i < n; i++) f.payload[i] ^= f.key[i & 3];
-	return p + n;
+	return p + (size_t)n;
 }
+static size_t parseFrame(const std::string& s, Frame& f, bool* canonical) { return parseFrameAt(s, 0, f, canonical); }
 static std::string pattern(size_t n, int seed) { std::string s(n, 0); unsigned x = 2463534242u + seed * 77; for (size_t i = 0; i < n; i++) { x ^= x << 13; x ^= x >> 17; x ^= x << 5; s[i] = (char)(x >> 8); } if (n) s[0] = (char)(0x41 + seed); return s; }
 
+// ---- the model: what a receiver of this byte stream (followed by end of stream) must observe
+struct Model {
+	std::vector<std::string> msgs;   // non-empty messages wholly contained, in order (up to a Close frame)
+	std::vector<std::string> pings;  // payloads of the pings to answer (up to a Close frame)
+	bool strict;                     // false: the stream contains a malformed frame (reserved bits/opcode, wrong mask bit for the role, control frame fragmented or > 125 bytes, continuation without start, ...): only the safety clause applies
+	bool noncanon;                   // a length is not in its minimal form: a receiver may refuse it, but what it delivers must be right
+	bool closeSeen, hasCode, closeMid; int code; std::string reason;
+	bool cutInFrame, midMsg; int frames; std::string why;
+};
+static Model modelOf(const std::string& s, bool asClient) {
+	Model m; m.strict = true; m.noncanon = m.closeSeen = m.hasCode = m.closeMid = m.cutInFrame = m.midMsg = false; m.code = 1000; m.frames = 0;
+	size_t pos = 0; bool inMsg = false; std::string cur;
+	while (pos < s.size()) {
+		Frame f; bool canon; size_t used = parseFrameAt(s, pos, f, &canon);
+		if (!used) { m.cutInFrame = true; break; }
+		m.frames++; pos += used;
+		if (f.rsv) { m.strict = false; m.why = "reserved bits"; break; }
+		if (f.masked == asClient) { m.strict = false; m.why = "mask bit does not fit the role"; break; }
+		if (!canon) m.noncanon = true;
+		if (f.opcode >= 8 && (!f.fin || f.payload.size() > 125)) { m.strict = false; m.why = "control frame fragmented or too long"; break; }
+		if (f.opcode == 0 || f.opcode == 1 || f.opcode == 2) {
+			if ((f.opcode == 0) != inMsg) { m.strict = false; m.why = f.opcode ? "data frame inside a fragmented message" : "continuation without a message"; break; }
+			inMsg = true; cur += f.payload;
+			if (f.fin) { if (!cur.empty()) m.msgs.push_back(cur); cur.clear(); inMsg = false; }
+		}
+		else if (f.opcode == 8) {
+			if (f.payload.size() == 1) { m.strict = false; m.why = "close payload of one byte"; break; }
+			m.closeSeen = true; m.closeMid = inMsg;
+			if (f.payload.size() >= 2) { m.hasCode = true; m.code = ((unsigned char)f.payload[0] << 8) | (unsigned char)f.payload[1]; m.reason = f.payload.substr(2); }
+			break;
+		}
+		else if (f.opcode == 9) m.pings.push_back(f.payload);
+		else if (f.opcode == 10) {}
+		else { m.strict = false; m.why = "reserved opcode"; break; }
+	}
+	m.midMsg = inMsg;
+	return m;
+}
+
 // ---------------------------------------------------------------- receive side
-struct RecvOut { std::vector<std::string> msgs; int emptyReturns; bool negLen; std::string asan; int closedAtEnd; std::string written; };
+struct RecvOut { std::vector<std::string> msgs; int emptyReturns; bool negLen, badAlloc; std::string asan, accessor; int closedAtEnd, code; std::string written; };
 static RecvOut runReceive(const std::vector<std::string>& chunks, bool asClient, int maxCalls, int readMax) {
-	RecvOut o; o.emptyReturns = 0; o.negLen = false; o.closedAtEnd = 0;
+	RecvOut o; o.emptyReturns = 0; o.negLen = o.badAlloc = false; o.closedAtEnd = 0; o.code = 0;
 	auto body = [&]() {
 		vf::asan_clear();
 		vnet::reset(); vnet::enable(true); vnet::set_limits(readMax, 0);
@@ -67,70 +121,173 @@ static RecvOut runReceive(const std::vector<std::string>& chunks, bool asClient,
 				try {
 					WebSocketMsg m = ws.receive();
 					if (m.length() < 0) o.negLen = true;
-					if (m.length() > 0) { ByteArray b = m; o.msgs.push_back(std::string((const char*)b.data(), b.length())); } else o.emptyReturns++;
-				} catch (std::bad_alloc&) { vf::add(W_BADALLOC); break; } // an announced length that cannot be allocated is resource exhaustion, not a memory error
+					if (m.length() > 0) {
+						ByteArray b = m; std::string d((const char*)b.data(), b.length()); o.msgs.push_back(d);
+						// the documented ways to look at a message: String msg = ws.receive();  *msg;  if (msg) / if (!msg)
+						String str = m; const char* z = *m; size_t want = strlen(d.c_str()), zl = strlen(z);
+						if (str.length() != (int)d.size() || memcmp(*str, d.data(), d.size()) != 0) o.accessor = fmt("String(msg) has %d bytes and differs from the %d message bytes", str.length(), (int)d.size());
+						else if (zl != want || memcmp(z, d.data(), want) != 0) o.accessor = fmt("*msg is a C string of %d bytes, the message text up to its first NUL has %d", (int)zl, (int)want);
+						else if (!(bool)m || !m) o.accessor = "operator bool / operator! say the message is empty";
+						vf::add(W_ACC); if (want != d.size()) vf::add(W_NUL);
+					} else o.emptyReturns++;
+				} catch (std::bad_alloc&) { vf::add(W_BADALLOC); o.badAlloc = true; break; } // an announced length that cannot be allocated is resource exhaustion, not a memory error
 			}
-			o.closedAtEnd = ws.closed();
+			o.closedAtEnd = ws.closed(); o.code = ws.code();
 		}
 		o.written = vnet::written(fd);
 		vnet::enable(false);
 		if (vf::asan_tripped()) o.asan = vf::asan_what();
 	};
 	vsched::states_reset();
-	vsched::Result x = vsched::run_once(std::vector<uint8_t>(), body, 400000);
+	vsched::Result x = vsched::run_once(std::vector<uint8_t>(), body, 2000000);
 	vf::add(C_EXEC); vf::add(C_POINTS, x.points.size()); { static int cst = vf::counter("states"); vf::add(cst, vsched::states_count()); }
 	return o;
 }
-static void expectMsgs(const RecvOut& o, const std::vector<std::string>& exp, const std::string& kase, const std::string& what) {
-	if (!o.asan.empty()) vf::violation("asan", "ASan " + o.asan + " in receive(): " + what, kase);
-	if (o.negLen) vf::violation("negative_length", "receive() returned a message of negative length: " + what, kase);
-	if (o.msgs.size() != exp.size()) { vf::violation("message_count", fmt("%d message(s) received instead of %d: ", (int)o.msgs.size(), (int)exp.size()) + what + (o.msgs.empty() ? "" : fmt(" (first has %d bytes)", (int)o.msgs[0].size())), kase); return; }
-	for (size_t i = 0; i < exp.size(); i++) if (o.msgs[i] != exp[i]) { size_t d = 0; while (d < exp[i].size() && d < o.msgs[i].size() && exp[i][d] == o.msgs[i][d]) d++; vf::violation("message_bytes", fmt("message %d differs (length %d vs %d, first difference at byte %d): ", (int)i + 1, (int)o.msgs[i].size(), (int)exp[i].size(), (int)d) + what, kase); return; }
+static std::string ends(const Model& m) { return m.closeSeen ? (m.closeMid ? " [Close frame between fragments]" : " [ended by a Close frame]") : m.cutInFrame ? " [stream ends inside a frame]" : m.midMsg ? " [stream ends between fragments]" : ""; }
+// compares an execution with the model of its stream
+static void checkStream(const RecvOut& o, const Model& m, bool asClient, const std::string& kase, const std::string& what0) {
+	std::string what = what0 + ends(m);
+	if (!o.asan.empty()) report("asan", "ASan " + o.asan + " in receive(): " + what, kase);
+	if (o.negLen) report("negative_length", "receive() returned a message of negative length: " + what, kase);
+	if (!o.accessor.empty()) report("accessor", o.accessor + ": " + what, kase);
+	if (!m.strict || o.badAlloc) return;
+	const std::vector<std::string>& exp = m.msgs;
+	if (m.noncanon) { // may be refused; whatever is delivered must be right (the reason text of a Close frame counts as sent, see below)
+		std::vector<std::string> all = exp; if (m.closeSeen && !m.reason.empty()) all.push_back(m.reason);
+		bool ok = o.msgs.size() <= all.size(); for (size_t i = 0; ok && i < o.msgs.size(); i++) ok = o.msgs[i] == all[i];
+		if (!ok) report("message_bytes", "frames with a non-minimal length form delivered something that was not sent: " + what, kase);
+		if (o.msgs.size() == exp.size() && !exp.empty()) vf::add(W_NONCANON);
+		return;
+	}
+	size_t k = 0; while (k < exp.size() && k < o.msgs.size() && exp[k] == o.msgs[k]) k++;
+	bool same = k == exp.size() && o.msgs.size() == exp.size();
+	// receive() hands out the reason text of a Close frame as its return value (with closed() true and code() set): that is the library's
+	// way to report the reason, it is byte-identical to what the peer sent, and it is the last thing returned
+	if (!same && k == exp.size() && m.closeSeen && !m.reason.empty() && o.msgs.size() == exp.size() + 1 && o.msgs.back() == m.reason) { same = true; vf::add(W_CLOSE_REASON); }
+	if (!same) {
+		if (k == exp.size() && o.msgs.size() > exp.size())
+			report(m.closeSeen ? "phantom_message_at_close" : "phantom_message", fmt("receive() delivered %d message(s) but only %d were completely sent; the extra one has %d bytes: ", (int)o.msgs.size(), (int)exp.size(), (int)o.msgs[k].size()) + what, kase);
+		else if (o.msgs.size() != exp.size()) report("message_count", fmt("%d message(s) received instead of %d: ", (int)o.msgs.size(), (int)exp.size()) + what + (o.msgs.empty() ? "" : fmt(" (first has %d bytes)", (int)o.msgs[0].size())), kase);
+		else { size_t d = 0; while (d < exp[k].size() && d < o.msgs[k].size() && exp[k][d] == o.msgs[k][d]) d++; report("message_bytes", fmt("message %d differs (length %d vs %d, first difference at byte %d): ", (int)k + 1, (int)o.msgs[k].size(), (int)exp[k].size(), (int)d) + what, kase); }
+	}
+	if (!o.closedAtEnd) report("eof_not_closed", "closed() is still false after the stream has ended and receive() was called again: " + what, kase);
+	if (m.closeSeen && m.hasCode) { vf::add(W_CLOSE_CODE); if (o.code != m.code) report("close_code", fmt("code() is %d after a Close frame with status %d: ", o.code, m.code) + what, kase); }
+	// every ping with a payload must be answered, in order, by a final pong frame with the same payload and the mask bit of the role
+	{
+		std::vector<std::string> want, got; for (size_t i = 0; i < m.pings.size(); i++) if (!m.pings[i].empty()) want.push_back(m.pings[i]);
+		size_t pos = 0; std::string bad;
+		while (pos < o.written.size() && bad.empty()) {
+			Frame pf; bool canon; size_t used = parseFrameAt(o.written, pos, pf, &canon);
+			if (!used) { bad = "bytes written during receive() are not whole frames"; break; }
+			pos += used;
+			if (pf.opcode != 10 || !pf.fin || pf.rsv || !canon || pf.masked != asClient) bad = fmt("frame written during receive(): opcode %d fin %d rsv %d masked %d canonical-length %d", pf.opcode, (int)pf.fin, pf.rsv, (int)pf.masked, (int)canon);
+			if (!pf.payload.empty()) got.push_back(pf.payload);
+		}
+		if (bad.empty() && got != want) bad = fmt("%d pong(s) with payload written for %d ping(s) with payload, or payloads differ", (int)got.size(), (int)want.size());
+		if (!bad.empty()) report("pong", "pings not answered by pongs carrying their payloads (" + bad + "): " + what, kase);
+		if (!want.empty()) vf::add(W_PONGS_CHECKED);
+	}
 }
-static Frame mkFrame(bool fin, int op, bool masked, const std::string& payload, unsigned key = 0x37fa213d, int lenMode = 0) { Frame f; f.fin = fin; f.opcode = op; f.masked = masked; f.payload = payload; f.lenMode = lenMode; f.key[0] = key >> 24; f.key[1] = key >> 16; f.key[2] = key >> 8; f.key[3] = key; return f; }
-
-static void lenCase(int len, int variant, const std::string& kase) {
-	g_case = kase; vf::cur(kase); vf::add(C_EVAL); vf::add(C_DIST);
-	bool masked = variant & 1; int delivery = variant >> 1; // 0 whole, 1 two chunks (header | rest), 2 read(1)-limited for short ones
-	std::string p = pattern(len, len % 7);
-	Frame f = mkFrame(true, 2, masked, p, 0x00ff8001u + len);
-	std::string bytes = frameBytes(f) + frameBytes(mkFrame(true, 1, masked, "END"));
-	if (len >= 126 && len < 65536) vf::add(W_LEN16); if (len >= 65536) vf::add(W_LEN64); if (masked) vf::add(W_MASKED);
+static Frame mkFrame(bool fin, int op, bool masked, const std::string& payload, unsigned key = 0x37fa213d, int lenMode = 0) { Frame f; f.fin = fin; f.rsv = 0; f.opcode = op; f.masked = masked; f.payload = payload; f.lenMode = lenMode; f.key[0] = key >> 24; f.key[1] = key >> 16; f.key[2] = key >> 8; f.key[3] = key; return f; }
+static std::vector<std::string> deliver(const std::string& bytes, int delivery, size_t firstCut = 0) { // 0 whole, 1 two chunks, 2 whole (read(1)-limited by the caller), 3 chunks of 4096 bytes, 4 byte by byte
 	std::vector<std::string> ch;
-	if (delivery == 1) { size_t cut = std::min<size_t>(bytes.size(), 3 + (len % 11)); ch.push_back(bytes.substr(0, cut)); ch.push_back(bytes.substr(cut)); } else ch.push_back(bytes);
-	RecvOut o = runReceive(ch, !masked, 3, delivery == 2 ? 1 : 0);
-	std::vector<std::string> exp; exp.push_back(p); exp.push_back("END");
-	expectMsgs(o, exp, kase, fmt("binary frame with %d-byte payload, %s, delivery %d", len, masked ? "masked" : "unmasked", delivery));
+	if (delivery == 1) { size_t cut = std::min(bytes.size(), firstCut); if (cut) ch.push_back(bytes.substr(0, cut)); if (cut < bytes.size()) ch.push_back(bytes.substr(cut)); }
+	else if (delivery == 3) for (size_t i = 0; i < bytes.size(); i += 4096) ch.push_back(bytes.substr(i, 4096));
+	else if (delivery == 4) for (size_t i = 0; i < bytes.size(); i++) ch.push_back(bytes.substr(i, 1));
+	else if (!bytes.empty()) ch.push_back(bytes);
+	return ch;
+}
+static void streamCase(const std::string& bytes, const std::vector<std::string>& chunks, bool asClient, int readMax, const std::string& kase, const std::string& what) {
+	Model m = modelOf(bytes, asClient);
+	RecvOut o = runReceive(chunks, asClient, (int)m.msgs.size() + 3, readMax);
+	checkStream(o, m, asClient, kase, what);
+}
+
+// len:<len>:<variant>[:<lenMode>] — one binary message and a text message END; variant = masked | delivery << 1
+static void lenCase(int len, int variant, int lenMode, const std::string& kase) {
+	g_case = kase; vf::cur(kase); vf::add(C_EVAL); vf::add(C_DIST);
+	bool masked = variant & 1; int delivery = variant >> 1; // 0 whole, 1 two chunks (header | rest), 2 read(1)-limited for short ones, 3 chunks of 4096 bytes
+	std::string p = pattern(len, len % 7);
+	Frame f = mkFrame(true, 2, masked, p, 0x00ff8001u + len, lenMode);
+	std::string bytes = frameBytes(f) + frameBytes(mkFrame(true, 1, masked, "END"));
+	if (len >= 126 && len < 65536) vf::add(W_LEN16); if (len >= 65536) vf::add(W_LEN64); if (masked) vf::add(W_MASKED); if (len > 70000) vf::add(W_BIGLEN); if (delivery == 3) vf::add(W_CHUNKED);
+	streamCase(bytes, deliver(bytes, delivery, 3 + (len % 11)), !masked, delivery == 2 ? 1 : 0, kase, fmt("binary frame with %d-byte payload, %s, delivery %d%s", len, masked ? "masked" : "unmasked", delivery, lenMode == 1 ? ", 16-bit length form" : lenMode == 2 ? ", 64-bit length form" : ""));
+}
+// cut:<len>:<variant>:<offset> — the same stream ended after <offset> bytes; variant = masked | delivery << 1 (0 whole, 1 byte by byte)
+static void cutCase(int len, int variant, int offset, const std::string& kase) {
+	g_case = kase; vf::cur(kase); vf::add(C_EVAL); vf::add(C_DIST);
+	bool masked = variant & 1; int delivery = (variant >> 1) ? 4 : 0;
+	static std::map<int, std::string> cache; // per worker process
+	std::map<int, std::string>::iterator it = cache.find(len * 2 + masked);
+	if (it == cache.end()) { if (cache.size() >= 8) cache.clear(); it = cache.insert(std::make_pair(len * 2 + (int)masked, frameBytes(mkFrame(true, 2, masked, pattern(len, len % 7), 0x00ff8001u + len)) + frameBytes(mkFrame(true, 1, masked, "END")))).first; }
+	const std::string& full = it->second;
+	if (offset > (int)full.size()) return;
+	std::string bytes = full.substr(0, offset);
+	Model m = modelOf(bytes, !masked);
+	vf::add(W_CUT); if (m.cutInFrame) vf::add(W_CUT_INFRAME); if (masked) vf::add(W_MASKED);
+	RecvOut o = runReceive(deliver(bytes, delivery), !masked, 5, 0);
+	checkStream(o, m, !masked, kase, fmt("binary frame with %d-byte payload and text frame END, %s, stream of %d bytes ended after %d, delivery %d", len, masked ? "masked" : "unmasked", (int)full.size(), offset, delivery));
 }
 static void maskCase(int len, int m, const std::string& kase) {
 	g_case = kase; vf::cur(kase); vf::add(C_EVAL); vf::add(C_DIST); vf::add(W_MASKED);
 	static const unsigned char mv[] = { 0x00, 0x01, 0x80, 0xff };
 	unsigned key = (mv[m & 3] << 24) | (mv[(m >> 2) & 3] << 16) | (mv[(m >> 4) & 3] << 8) | mv[(m >> 6) & 3];
-	std::string p = pattern(len, m);
-	std::vector<std::string> ch(1, frameBytes(mkFrame(true, 1, true, p, key)));
-	RecvOut o = runReceive(ch, false, 2, 0);
-	expectMsgs(o, std::vector<std::string>(1, p), kase, fmt("text frame, %d bytes, mask key %08x", len, key));
+	std::string bytes = frameBytes(mkFrame(true, 1, true, pattern(len, m), key));
+	streamCase(bytes, deliver(bytes, 0), false, 0, kase, fmt("text frame, %d bytes, mask key %08x", len, key));
 }
-// message of length n split into k frames at given cut positions, with a ping inserted before frame index pingAt (-1 none)
-static void fragCase(int n, int cuts, int pingAt, bool masked, const std::string& kase) {
-	g_case = kase; vf::cur(kase); vf::add(C_EVAL); vf::add(C_DIST); vf::add(W_FRAG);
-	std::string p = pattern(n, 3);
-	// cuts: base-(n+1) digits c1<=c2<=c3 (up to 3 cut points => up to 4 frames, zero-length fragments allowed)
-	int c[3]; int x = cuts; for (int i = 0; i < 3; i++) { c[i] = x % (n + 1); x /= (n + 1); }
-	if (!(c[0] <= c[1] && c[1] <= c[2])) return;
-	std::vector<std::string> parts; int prev = 0; for (int i = 0; i < 3; i++) { parts.push_back(p.substr(prev, c[i] - prev)); prev = c[i]; } parts.push_back(p.substr(prev));
-	std::string bytes;
-	for (size_t i = 0; i < parts.size(); i++) {
-		if ((int)i == pingAt) { bytes += frameBytes(mkFrame(true, 9, masked, "pi")); if (i > 0) vf::add(W_PING_BETWEEN); }
-		bytes += frameBytes(mkFrame(i + 1 == parts.size(), i == 0 ? 2 : 0, masked, parts[i]));
+// control frames that can be put between the frames of a fragmented message
+static const char* ctlName[] = { "none", "ping ''", "ping 'pi'", "ping of 125 bytes", "pong 'po'", "pong ''", "close without status", "close 1000", "close 4321 'bye'" };
+enum { NCTL = 9 };
+static std::string ctlFrame(int kind, bool masked, unsigned key) {
+	switch (kind) {
+	case 1: return frameBytes(mkFrame(true, 9, masked, "", key));
+	case 2: return frameBytes(mkFrame(true, 9, masked, "pi", key));
+	case 3: return frameBytes(mkFrame(true, 9, masked, pattern(125, 6), key));
+	case 4: return frameBytes(mkFrame(true, 10, masked, "po", key));
+	case 5: return frameBytes(mkFrame(true, 10, masked, "", key));
+	case 6: return frameBytes(mkFrame(true, 8, masked, "", key));
+	case 7: return frameBytes(mkFrame(true, 8, masked, std::string("\x03\xe8", 2), key));
+	case 8: return frameBytes(mkFrame(true, 8, masked, std::string("\x10\xe1", 2) + "bye", key));
 	}
-	if (pingAt == (int)parts.size()) bytes += frameBytes(mkFrame(true, 9, masked, "pi"));
-	bytes += frameBytes(mkFrame(true, 1, masked, "END"));
-	RecvOut o = runReceive(std::vector<std::string>(1, bytes), !masked, 8, 0);
-	std::vector<std::string> exp; exp.push_back(p); exp.push_back("END");
-	expectMsgs(o, exp, kase, fmt("%d-byte message in fragments %d|%d|%d|%d, ping before fragment %d", n, (int)parts[0].size(), (int)parts[1].size(), (int)parts[2].size(), (int)parts[3].size(), pingAt));
-	// every ping must be answered by a pong with the same payload
-	if (pingAt >= 0 && o.asan.empty()) { Frame pf; bool canon; if (!parseFrame(o.written, pf, &canon) || pf.opcode != 10 || pf.payload != "pi") vf::violation("pong", "ping not answered by a pong carrying its payload: " + kase, kase); }
+	return "";
+}
+// fx:<n>:<c1>:<c2>:<c3>:<op>:<mk>:<k1>:<p1>:<k2>:<p2>:<cut>:<dl> — an n-byte message (first opcode op) in 4 frames cut at c1<=c2<=c3, control frame k1 before
+// frame p1 and k2 before frame p2 (position 4 = after the last fragment), then a text message END; the stream ends after <cut> bytes (-1: complete)
+static void fxCase(int n, const int* c, int op, bool masked, int k1, int p1, int k2, int p2, int cut, int dl, const std::string& kase) {
+	g_case = kase; vf::cur(kase); vf::add(C_EVAL);
+	if (!(0 <= c[0] && c[0] <= c[1] && c[1] <= c[2] && c[2] <= n) || k1 < 0 || k1 >= NCTL || k2 < 0 || k2 >= NCTL) return;
+	vf::add(C_DIST); vf::add(W_FRAG);
+	std::string p = pattern(n, 3);
+	std::vector<std::string> parts; int prev = 0; for (int i = 0; i < 3; i++) { parts.push_back(p.substr(prev, c[i] - prev)); prev = c[i]; } parts.push_back(p.substr(prev));
+	std::string bytes; unsigned key = 0x37fa213d;
+	for (int i = 0; i <= 4; i++) {
+		if (k1 && p1 == i) { bytes += ctlFrame(k1, masked, key); key = key * 0x9e3779b1u + 0x01000193u; }
+		if (k2 && p2 == i) { bytes += ctlFrame(k2, masked, key); key = key * 0x9e3779b1u + 0x01000193u; }
+		if (i < 4) { bytes += frameBytes(mkFrame(i == 3, i == 0 ? op : 0, masked, parts[i], key)); key = key * 0x9e3779b1u + 0x01000193u; if (parts[i].size() >= 126) vf::add(W_BIGFRAG); }
+	}
+	bytes += frameBytes(mkFrame(true, 1, masked, "END", key));
+	size_t full = bytes.size();
+	if (cut >= 0) { if (cut > (int)full) return; bytes.resize(cut); vf::add(W_CUT); }
+	Model m = modelOf(bytes, !masked);
+	int ks[2] = { k1, k2 }, ps[2] = { p1, p2 };
+	for (int j = 0; j < 2; j++) if (cut < 0 && ks[j]) {
+		bool between = ps[j] >= 1 && ps[j] <= 3;
+		if (ks[j] <= 3 && between) vf::add(W_PING_BETWEEN); if (ks[j] == 1) vf::add(W_PING_EMPTY); if (ks[j] == 3) vf::add(W_PING125); if (ks[j] == 4 || ks[j] == 5) vf::add(W_PONG_IN);
+	}
+	if (m.closeSeen) { vf::add(W_CLOSE); if (m.closeMid) vf::add(W_CLOSE_MID); }
+	if (cut < 0 && k1 && k2) vf::add(W_TWO_CTL);
+	if (cut >= 0 && m.cutInFrame) vf::add(W_CUT_INFRAME); if (cut >= 0 && !m.cutInFrame && m.midMsg && !m.closeSeen) vf::add(W_CUT_MIDMSG);
+	if (masked) vf::add(W_MASKED);
+	RecvOut o = runReceive(deliver(bytes, dl ? 4 : 0), !masked, 8, 0);
+	std::string what = fmt("%d-byte %s message in fragments %d|%d|%d|%d, %s", n, op == 1 ? "text" : "binary", (int)parts[0].size(), (int)parts[1].size(), (int)parts[2].size(), (int)parts[3].size(), masked ? "masked" : "unmasked");
+	if (k1) what += fmt(", %s before fragment %d", ctlName[k1], p1); if (k2) what += fmt(", %s before fragment %d", ctlName[k2], p2);
+	if (cut >= 0) what += fmt(", stream of %d bytes ended after %d", (int)full, cut); if (dl) what += ", byte by byte";
+	checkStream(o, m, !masked, kase, what);
+}
+// frag:<n>:<cuts>:<ping>:<mk> (older form): cuts are base-(n+1) digits, a ping 'pi' before fragment <ping> (-1 none)
+static void fragCase(int n, int cuts, int pingAt, bool masked, const std::string& kase) {
+	int c[3]; int x = cuts; for (int i = 0; i < 3; i++) { c[i] = x % (n + 1); x /= (n + 1); }
+	fxCase(n, c, 2, masked, pingAt >= 0 ? 2 : 0, pingAt, 0, 0, -1, 0, kase);
 }
 // hostile input: 2-byte header, extended length field, optional mask and a few payload bytes, then end of stream at `cut`
 static void hostileCase(int b0, int b1, int ext, int cut, int delivery, const std::string& kase) {
@@ -138,38 +295,83 @@ static void hostileCase(int b0, int b1, int ext, int cut, int delivery, const st
 	static const uint64_t exts[] = { 0, 125, 126, 65535, 65536, 0x7fffffffULL, 0x80000000ULL, 0xffffffffULL, 0x100000000ULL, 0x8000000000000000ULL, 0xffffffffffffffffULL, 5 };
 	std::string s; s += (char)b0; s += (char)b1;
 	int l7 = b1 & 0x7f; uint64_t e = exts[ext];
-	if (l7 == 126) { s += (char)(e >> 8); s += (char)e; } else if (l7 == 127) { for (int i = 7; i >= 0; i--) s += (char)(e >> (8 * i)); if ((e & 0x80000000ULL) && e < 0x100000000ULL) vf::add(W_NEG64); }
+	if (l7 == 126) { s += (char)(e >> 8); s += (char)e; } else if (l7 == 127) { for (int i = 7; i >= 0; i--) s += (char)(e >> (8 * i)); if ((e & 0x80000000ULL) && e < 0x100000000ULL && cut >= 10) vf::add(W_NEG64); }
 	if (b1 & 0x80) s += "\x11\x22\x33\x44";
 	s += "payload-bytes";
 	if (cut < (int)s.size()) s.resize(cut);
-	std::vector<std::string> ch;
-	if (delivery == 0) ch.push_back(s); else for (size_t i = 0; i < s.size(); i++) ch.push_back(s.substr(i, 1));
-	RecvOut o = runReceive(ch, false, 3, 0);
-	if (!o.asan.empty()) vf::violation("asan", fmt("ASan %s in receive() on hostile frame %s", o.asan.c_str(), vf::hex(s).c_str()), kase);
-	if (o.negLen) vf::violation("negative_length", "receive() returned a message of negative length on hostile frame " + vf::hex(s), kase);
+	bool asClient = !(b1 & 0x80); // the role for which the mask bit is right, so that well-formed but truncated frames fall under the exact comparison
+	Model m = modelOf(s, asClient);
+	RecvOut o = runReceive(deliver(s, delivery ? 4 : 0), asClient, (int)m.msgs.size() + 3, 0);
+	if (m.strict && !m.noncanon && !o.badAlloc) vf::add(W_HOSTILE_STRICT);
+	checkStream(o, m, asClient, kase, "hostile frame " + vf::hex(s) + (m.strict ? "" : " (malformed: " + m.why + ")"));
 	if (o.msgs.empty()) vf::add(W_HOSTILE_CLOSED); else vf::add(W_HOSTILE_MSG);
 }
 // send side: output of the real send() parsed by the reference deframer
+// send:<len>:<role>:<form> — 0 send(ByteArray), 1 send(ptr,len,FRAME_TEXT), 2 send(String), 3 send(const char*), 4 send(ptr,len,FRAME_BINARY), 5 FRAME_PING, 6 FRAME_PONG, 7 FRAME_CLOSE, 8 FRAME_CONT
 static void sendCase(int len, bool asClient, int type, const std::string& kase) {
 	g_case = kase; vf::cur(kase); vf::add(C_EVAL); vf::add(C_DIST);
 	std::string p = pattern(len, 5), written, asan;
+	if (type == 3) for (size_t i = 0; i < p.size(); i++) if (!p[i]) p[i] = 'n'; // a C string cannot carry NUL
+	if (type >= 2) vf::add(W_SEND_FORMS); if (len > 70000) vf::add(W_BIGLEN);
 	auto body = [&]() {
-		vf::asan_clear(); vnet::reset(); vnet::enable(true); vnet::set_limits(0, (len % 3 == 0) ? 7 : 0);
+		vf::asan_clear(); vnet::reset(); vnet::enable(true); vnet::set_limits(0, (len % 3 == 0 && len < 100000) ? 7 : 0);
 		std::vector<std::string> none(1, std::string(1, 'x')); // keep the connection open (one unread byte) so that closed() is false
 		int fd = vnet::scripted(none);
 		{ Socket s(fd); WebSocket ws(s, asClient); ws._random.seed(777 + len);
-		  if (type == 0) ws.send(ByteArray((const byte*)p.data(), (int)p.size())); else ws.send((const byte*)p.data(), (int)p.size(), WebSocket::FRAME_TEXT); }
+		  const byte* d = (const byte*)p.data(); int n = (int)p.size();
+		  switch (type) {
+		  case 0: ws.send(ByteArray(d, n)); break;
+		  case 1: ws.send(d, n, WebSocket::FRAME_TEXT); break;
+		  case 2: ws.send(String(p.data(), n)); break;
+		  case 3: ws.send(p.c_str()); break;
+		  case 4: ws.send(d, n, WebSocket::FRAME_BINARY); break;
+		  case 5: ws.send(d, n, WebSocket::FRAME_PING); break;
+		  case 6: ws.send(d, n, WebSocket::FRAME_PONG); break;
+		  case 7: ws.send(d, n, WebSocket::FRAME_CLOSE); break;
+		  case 8: ws.send(d, n, WebSocket::FRAME_CONT); break;
+		  } }
 		written = vnet::written(fd); vnet::enable(false);
 		if (vf::asan_tripped()) asan = vf::asan_what();
 	};
-	vsched::Result x = vsched::run_once(std::vector<uint8_t>(), body, 400000);
+	vsched::Result x = vsched::run_once(std::vector<uint8_t>(), body, 2000000);
 	vf::add(C_EXEC); vf::add(C_POINTS, x.points.size());
-	std::string what = fmt("send() of %d bytes as %s", len, asClient ? "client" : "server");
-	if (!asan.empty()) vf::violation("asan", "ASan " + asan + " in " + what, kase);
+	static const char* forms[] = { "send(ByteArray)", "send(ptr,len,FRAME_TEXT)", "send(String)", "send(const char*)", "send(ptr,len,FRAME_BINARY)", "send(ptr,len,FRAME_PING)", "send(ptr,len,FRAME_PONG)", "send(ptr,len,FRAME_CLOSE)", "send(ptr,len,FRAME_CONT)" };
+	static const int opcodes[] = { 2, 1, 1, 1, 2, 9, 10, 8, -1 }; // FRAME_CONT: the library cannot send non-final frames, the property says nothing about it: framing and payload only
+	std::string what = fmt("%s of %d bytes as %s", forms[type], len, asClient ? "client" : "server");
+	if (!asan.empty()) report("asan", "ASan " + asan + " in " + what, kase);
 	Frame f; bool canon = false; size_t used = parseFrame(written, f, &canon);
-	if (!used || used != written.size()) { vf::violation("send_framing", what + fmt(": output of %d bytes is not exactly one well-formed frame", (int)written.size()), kase); return; }
-	if (f.payload != p) vf::violation("send_payload", what + ": payload after unmasking differs", kase);
-	if (!f.fin || f.opcode != (type == 0 ? 2 : 1) || f.masked != asClient || !canon) vf::violation("send_header", what + fmt(": fin %d opcode %d masked %d canonical-length %d", (int)f.fin, f.opcode, (int)f.masked, (int)canon), kase);
+	if (!used || used != written.size()) { report("send_framing", what + fmt(": output of %d bytes is not exactly one well-formed frame", (int)written.size()), kase); return; }
+	if (f.payload != p) report("send_payload", what + ": payload after unmasking differs", kase);
+	if (!f.fin || f.rsv || (opcodes[type] >= 0 && f.opcode != opcodes[type]) || f.masked != asClient || !canon) report("send_header", what + fmt(": fin %d rsv %d opcode %d masked %d canonical-length %d", (int)f.fin, f.rsv, f.opcode, (int)f.masked, (int)canon), kase);
+}
+// sendv:<k>:<role> — send(Var): the text frame must carry the JSON text; fed to a receiver of the other role it must convert back to an equal Var
+static void sendVarCase(int k, bool asClient, const std::string& kase) {
+	g_case = kase; vf::cur(kase); vf::add(C_EVAL); vf::add(C_DIST); vf::add(W_VAR);
+	static const char* json[] = { "10", "\"hi\"", "[1,2,3]", "{\"a\":1}", "true", 0 };
+	std::string written, asan, back; bool equal = false, docok = true;
+	auto body = [&]() {
+		vf::asan_clear(); vnet::reset(); vnet::enable(true); vnet::set_limits(0, 0);
+		Var v;
+		switch (k) { case 0: v = 10; break; case 1: v = "hi"; break; case 2: v = Var::ARRAY; v << 1 << 2 << 3; break; case 3: v = Var("a", 1); break; case 4: v = true; break; default: v = Var("type", "info")("n", 10); }
+		int fd = vnet::scripted(std::vector<std::string>(1, "x"));
+		{ Socket s(fd); WebSocket ws(s, asClient); ws._random.seed(31 + k); ws.send(v); }
+		written = vnet::written(fd);
+		int fd2 = vnet::scripted(std::vector<std::string>(1, written));
+		{ Socket s(fd2); WebSocket ws(s, !asClient); WebSocketMsg m = ws.receive(); Var w = m; equal = w == v; ByteArray b = m; back.assign((const char*)b.data(), b.length());
+		  if (k == 5) docok = w["type"].toString() == "info" && (int)w["n"] == 10 && w.length() == 2; }
+		vnet::enable(false);
+		if (vf::asan_tripped()) asan = vf::asan_what();
+	};
+	vsched::Result x = vsched::run_once(std::vector<uint8_t>(), body, 100000);
+	vf::add(C_EXEC); vf::add(C_POINTS, x.points.size());
+	std::string what = fmt("send(Var) number %d as %s", k, asClient ? "client" : "server");
+	if (!asan.empty()) report("asan", "ASan " + asan + " in " + what, kase);
+	Frame f; bool canon = false; size_t used = parseFrame(written, f, &canon);
+	if (!used || used != written.size()) { report("send_framing", what + ": output is not exactly one well-formed frame", kase); return; }
+	if (!f.fin || f.rsv || f.opcode != 1 || f.masked != asClient || !canon) report("send_header", what + fmt(": fin %d rsv %d opcode %d masked %d canonical-length %d", (int)f.fin, f.rsv, f.opcode, (int)f.masked, (int)canon), kase);
+	std::string compact; for (size_t i = 0; i < f.payload.size(); i++) if (!strchr(" \t\r\n", f.payload[i])) compact += f.payload[i];
+	if (json[k < 5 ? k : 5] && compact != json[k]) report("send_payload", what + ": text frame carries '" + f.payload + "' instead of the JSON text " + json[k], kase);
+	if (back != f.payload || !equal || !docok) report("var_message", what + ": the message '" + f.payload + "' received by the peer and converted with operator Var is not equal to the Var sent", kase);
 }
 
 // ---------------------------------------------------------------- handshake + echo under all interleavings
@@ -179,12 +381,12 @@ struct Acceptor : public Thread {
 	EchoServer* srv; Socket* lst; int served;
 	void run() { Socket c = lst->accept(); if (c.handle() >= 0) { ((SocketServer*)srv)->serve(c); served++; } }
 };
-static void handshakeJob(int bound, int payloadLen, const std::string* replay) {
-	std::string kase = fmt("handshake:%d:%d", bound, payloadLen); g_case = kase; vf::cur(kase);
-	std::string verdict;
+static void handshakeJob(int bound, int payloadLen, const std::string* replay, int pipe = 0) {
+	std::string kase = pipe ? fmt("echo:%d:%d", payloadLen, pipe) : fmt("handshake:%d:%d", bound, payloadLen); g_case = kase; vf::cur(kase); vf::add(C_EVAL); vf::add(C_DIST);
+	std::string verdict, misuse;
 	auto body = [&]() {
-		vf::asan_clear(); vnet::reset(8 + payloadLen); vnet::enable(true); vnet::set_limits(0, 0);
-		verdict.clear();
+		vf::asan_clear(); vnet::reset(pipe ? pipe : 8 + payloadLen); vnet::enable(true); vnet::set_limits(0, 0);
+		verdict.clear(); misuse.clear();
 		{
 			EchoServer srv; Socket lst; lst.bind("127.0.0.1", 9000); lst.listen(2);
 			Acceptor acc; acc.srv = &srv; acc.lst = &lst; acc.served = 0; acc.start();
@@ -199,28 +401,124 @@ static void handshakeJob(int bound, int payloadLen, const std::string* replay) {
 			else { if (srv.seen.size() != 1 || srv.seen[0] != p) verdict += "server did not receive the client's message exactly once; "; if (reply != p) verdict += fmt("client received %d bytes instead of its %d-byte echo; ", (int)reply.size(), payloadLen); }
 			lst.close();
 		}
-		if (vnet::misuse()) verdict += fmt("%d operation(s) on closed descriptors; ", vnet::misuse());
+		if (vnet::misuse()) misuse = fmt("%d operation(s) on closed descriptors; ", vnet::misuse());
 		vnet::enable(false);
 		if (vf::asan_tripped()) verdict += "ASan " + vf::asan_what() + "; ";
 	};
-	auto after = [&](const vsched::Result& x) { vf::add(C_EXEC); vf::add(C_POINTS, x.points.size()); vf::add(W_HANDSHAKE); if (x.preemptions) vf::add(W_PREEMPT); if (!verdict.empty()) vf::violation("handshake", verdict + "schedule " + x.trace(), kase + "|" + x.trace()); };
+	auto after = [&](const vsched::Result& x) {
+		vf::add(C_EXEC); vf::add(C_POINTS, x.points.size()); vf::add(pipe ? W_ECHO_BIG : W_HANDSHAKE); if (x.preemptions) vf::add(W_PREEMPT);
+		std::string sch = pipe ? std::string("default schedule") : "schedule " + x.trace(), rk = pipe ? kase : kase + "|" + x.trace(); // echo:* runs the default (non-preemptive) schedule only
+		if (!verdict.empty()) report("handshake", verdict + sch, rk);
+		else if (!misuse.empty()) report("closed_descriptor_use", misuse + sch, rk);
+	};
 	vsched::set_early_timeouts(false); // a handshake that fails because a read timed out on a slow peer is not a framing error
-	if (replay) { vsched::Result x = vsched::run_once(vsched::parse_schedule(*replay), body, 100000); after(x); vsched::set_early_timeouts(true); return; }
+	if (replay || pipe) { vsched::Result x = vsched::run_once(replay ? vsched::parse_schedule(*replay) : std::vector<uint8_t>(), body, pipe ? 4000000 : 100000); after(x); vsched::set_early_timeouts(true); return; }
 	vsched::ExploreStats st = vsched::explore(body, after, bound, 0, 100000);
 	{ static int cst = vf::counter("states"); vf::add(cst, st.distinct_states); }
 	vsched::set_early_timeouts(true);
 }
-// accept key on the wire: a scripted client request with a known key; the server's 101 response must carry the RFC 6455 accept value
-static void acceptKeyCase(int k, const std::string& kase) {
+// accept key on the wire: a scripted client request with a known key; the server's 101 response must carry the RFC 6455 accept value.
+// akey:<k> is the single classic shape; akx:<k>:<casing>:<sep>:<conn>:<via> varies what RFC 7230 leaves free: the case of the field names
+// (0 as in the RFC, 1 lower, 2 upper), the optional whitespace after the colon (0 ": ", 1 ":", 2 ":  ", 3 ":\t"), other tokens in Connection,
+// and the entry point (0 WebSocketServer on its own port, 1 a WebSocketServer linked to an HttpServer); a masked text frame follows the request
+// and must come back as the echo behind the response
+static void acceptKeyCase(int k, int casing, int sep, int conn, int via, bool ext, const std::string& kase) {
 	g_case = kase; vf::cur(kase); vf::add(C_EVAL); vf::add(C_DIST);
 	std::string key = k == 0 ? "dGhlIHNhbXBsZSBub25jZQ==" : vf::fmt("%016dAAAAAA==", k * 7919);
-	std::string req = "GET /chat HTTP/1.1\r\nHost: h\r\nUpgrade: websocket\r\nConnection: Upgrade\r\nSec-WebSocket-Key: " + key + "\r\nSec-WebSocket-Version: 13\r\n\r\n";
+	static const char* seps[] = { ": ", ":", ":  ", ":\t" }; static const char* conns[] = { "Upgrade", "keep-alive, Upgrade" };
+	const char* names[] = { "Host", "Upgrade", "Connection", "Sec-WebSocket-Key", "Sec-WebSocket-Version" }; std::string vals[] = { "h", "websocket", conns[conn], key, "13" };
+	std::string req = "GET /chat HTTP/1.1\r\n";
+	for (int i = 0; i < 5; i++) { std::string nm = names[i]; for (size_t j = 0; j < nm.size(); j++) nm[j] = casing == 1 ? (char)tolower(nm[j]) : casing == 2 ? (char)toupper(nm[j]) : nm[j]; req += nm + seps[sep] + vals[i] + "\r\n"; }
+	req += "\r\n";
+	std::string echo;
+	if (ext) { vf::add(W_AKX); if (sep == 1) vf::add(W_AKX_NOSPACE); if (via) vf::add(W_AKX_HTTP); req += frameBytes(mkFrame(true, 1, true, "ping!", 0x0badf00du + k)); echo = frameBytes(mkFrame(true, 2, false, "ping!")); }
 	std::string written, asan;
-	auto body = [&]() { vf::asan_clear(); vnet::reset(); vnet::enable(true); int fd = vnet::scripted(std::vector<std::string>(1, req)); { EchoServer srv; Socket c(fd); ((SocketServer&)srv).serve(c); } written = vnet::written(fd); vnet::enable(false); if (vf::asan_tripped()) asan = vf::asan_what(); };
+	auto body = [&]() {
+		vf::asan_clear(); vnet::reset(); vnet::enable(true); int fd = vnet::scripted(std::vector<std::string>(1, req));
+		{ EchoServer srv; Socket c(fd); if (via) { HttpServer http; http.link(srv); ((SocketServer&)http).serve(c); } else ((SocketServer&)srv).serve(c); }
+		written = vnet::written(fd); vnet::enable(false); if (vf::asan_tripped()) asan = vf::asan_what();
+	};
+	vsched::set_early_timeouts(false);
 	vsched::Result x = vsched::run_once(std::vector<uint8_t>(), body, 100000); vf::add(C_EXEC); vf::add(C_POINTS, x.points.size());
+	vsched::set_early_timeouts(true);
 	std::string want = "Sec-WebSocket-Accept: " + sha1b64(key + "258EAFA5-E914-47DA-95CA-C5AB0DC85B11") + "\r\n";
-	if (!asan.empty()) vf::violation("asan", "ASan " + asan + " in server handshake", kase);
-	if (written.find("HTTP/1.1 101") != 0 || written.find(want) == std::string::npos) vf::violation("accept_key", "server handshake response for key " + key + " does not carry '" + want.substr(0, want.size() - 2) + "': " + vf::hex(written.substr(0, 200)), kase);
+	std::string shape = ext ? fmt(" (field names %s, '%s' after the name, Connection: %s, %s)", casing == 1 ? "lower case" : casing == 2 ? "upper case" : "as in the RFC", sep == 3 ? ":\\t" : seps[sep], conns[conn], via ? "through HttpServer::link" : "WebSocketServer") : "";
+	if (!asan.empty()) report("asan", "ASan " + asan + " in server handshake" + shape, kase);
+	size_t he = written.find("\r\n\r\n");
+	if (written.find("HTTP/1.1 101") != 0 || he == std::string::npos || written.substr(0, he + 2).find(want) == std::string::npos) { report("accept_key", "server handshake response for key " + key + shape + " does not carry '" + want.substr(0, want.size() - 2) + "': " + vf::hex(written.substr(0, 200)), kase); return; }
+	if (ext && written.substr(he + 4) != echo) report("handshake", "the frame that followed the handshake request" + shape + " was not echoed behind the response: " + vf::hex(written.substr(he + 4, 60)), kase);
+}
+// conn:<kind>:<cut> — WebSocket::connect() against a listener that answers the request with a fixed response ended after <cut> bytes (-1: complete, then a text
+// frame; the client's reply is read back). connect() may only succeed when the whole header block of a 101 response with the two upgrade fields has arrived.
+static std::string respOf(int kind, const std::string& acc) {
+	switch (kind) {
+	case 0: return "HTTP/1.1 101 Switching Protocols\r\nUpgrade: websocket\r\nConnection: Upgrade\r\nSec-WebSocket-Accept: " + acc + "\r\n\r\n";
+	case 1: return "HTTP/1.1 101 Switching Protocols\r\nServer: x\r\nConnection: keep-alive, Upgrade\r\nUpgrade: websocket\r\nSec-WebSocket-Accept: " + acc + "\r\nSec-WebSocket-Protocol: chat\r\n\r\n";
+	case 2: return "HTTP/1.1 200 OK\r\nContent-Type: text/plain\r\nContent-Length: 2\r\n\r\nhi";
+	case 3: return "HTTP/1.1 400 Bad request\r\n\r\nNot a WebSocket request";
+	case 4: return "HTTP/1.1 101 Switching Protocols\r\nConnection: Upgrade\r\nSec-WebSocket-Accept: " + acc + "\r\n\r\n"; // no Upgrade field
+	case 5: return "HTTP/1.1 101 Switching Protocols\r\nUpgrade: websocket\r\nSec-WebSocket-Accept: " + acc + "\r\n\r\n"; // no Connection field
+	case 6: return "HTTP/1.1 301 Moved\r\nLocation: /x\r\nUpgrade: websocket\r\nConnection: Upgrade\r\n\r\n";
+	}
+	return "\r\n\r\n";
+}
+enum { NRESP = 8 };
+struct RawPeer : public Thread {
+	Socket* lst; int kind, cut; std::string req, got; size_t full; bool okKind;
+	void run() {
+		Socket c = lst->accept(); if (c.handle() < 0) return;
+		for (int i = 0; i < 40; i++) { String l = c.readLine(); if (l.length() == 0) break; req += std::string(*l, l.length()) + "\n"; if (l == "\r") break; }
+		std::string key; { size_t a = req.find("Sec-WebSocket-Key: "); if (a != std::string::npos) { a += 19; size_t b = req.find('\r', a); key = req.substr(a, b - a); } }
+		std::string acc = sha1b64(key + "258EAFA5-E914-47DA-95CA-C5AB0DC85B11"), r;
+		r = respOf(kind, acc);
+		full = r.size(); okKind = kind <= 1;
+		if (cut >= 0 && cut < (int)r.size()) r.resize(cut);
+		if (okKind && cut < 0) r += frameBytes(mkFrame(true, 1, false, "hello"));
+		if (!r.empty()) c.write(r.data(), (int)r.size());
+		if (okKind && cut < 0) for (;;) { char ch; int n = c.read(&ch, 1); if (n <= 0) break; got += ch; }
+		c.close();
+	}
+};
+static void connectCase(int kind, int cut, const std::string& kase) {
+	g_case = kase; vf::cur(kase); vf::add(C_EVAL); vf::add(C_DIST); vf::add(W_CONN);
+	std::string verdict, asan; bool ok = false; size_t full = 0; bool okKind = false;
+	auto body = [&]() {
+		vf::asan_clear(); vnet::reset(); vnet::enable(true); vnet::set_limits(0, 0); verdict.clear();
+		{
+			Socket lst; lst.bind("127.0.0.1", 9000); lst.listen(2);
+			RawPeer peer; peer.lst = &lst; peer.kind = kind; peer.cut = cut; peer.full = 0; peer.okKind = false; peer.start();
+			std::string reply; bool closedAfter = true;
+			{
+				WebSocket ws; ws._random.seed(99);
+				ok = ws.connect("127.0.0.1", 9000);
+				if (ok && cut < 0) { WebSocketMsg m = ws.receive(); ByteArray b = m; reply.assign((const char*)b.data(), b.length()); ws.send(String("from-client")); }
+				if (!ok) closedAfter = ws.closed();
+				ws.close();
+			}
+			peer.join(); full = peer.full; okKind = peer.okKind;
+			if (!ok && !closedAfter) verdict += "connect() failed but closed() is false; ";
+			if (ok && cut < 0) {
+				if (reply != "hello") verdict += fmt("the text frame sent behind the 101 response arrived as %d bytes; ", (int)reply.size());
+				Frame f; bool canon; size_t used = parseFrame(peer.got, f, &canon);
+				if (!used || used != peer.got.size() || !f.fin || f.opcode != 1 || !f.masked || !canon || f.payload != "from-client") verdict += "the client's text message did not reach the peer as one masked text frame; ";
+			}
+			lst.close();
+		}
+		vnet::enable(false);
+		if (vf::asan_tripped()) asan = vf::asan_what();
+	};
+	vsched::set_early_timeouts(false);
+	vsched::Result x = vsched::run_once(std::vector<uint8_t>(), body, 200000); vf::add(C_EXEC); vf::add(C_POINTS, x.points.size());
+	vsched::set_early_timeouts(true);
+	std::string what = fmt("connect() to a server answering with response %d%s", kind, cut < 0 ? "" : fmt(" ended after %d of %d bytes", cut, (int)full).c_str());
+	if (!asan.empty()) report("asan", "ASan " + asan + " in " + what, kase);
+	bool complete = cut < 0 || cut >= (int)full;
+	bool mayOk = okKind && (complete || cut >= (int)full - 1); // without the very last LF every field has still arrived
+	bool mustOk = okKind && complete;
+	if (ok) vf::add(W_CONN_OK); else vf::add(W_CONN_FAIL);
+	if (ok && !mayOk) verdict += "connect() returned true; ";
+	if (!ok && mustOk) verdict += "connect() returned false; ";
+	if (!verdict.empty()) report("connect_result", verdict + what, kase);
 }
 
 // ---- reference SHA-1 + base64 (std only; RFC 6455 sample vector asserted at start-up)
@@ -242,21 +540,41 @@ static std::string sha1b64(const std::string& in) {
 }
 
 static void run_case(const std::string& k) {
-	int a, b, c, d, e;
-	if (sscanf(k.c_str(), "len:%d:%d", &a, &b) == 2) lenCase(a, b, k);
+	int a, b, c, d, e, v[12];
+	if (sscanf(k.c_str(), "len:%d:%d:%d", &a, &b, &c) == 3) lenCase(a, b, c, k);
+	else if (sscanf(k.c_str(), "len:%d:%d", &a, &b) == 2) lenCase(a, b, 0, k);
+	else if (sscanf(k.c_str(), "cut:%d:%d:%d", &a, &b, &c) == 3) cutCase(a, b, c, k);
 	else if (sscanf(k.c_str(), "mask:%d:%d", &a, &b) == 2) maskCase(a, b, k);
 	else if (sscanf(k.c_str(), "frag:%d:%d:%d:%d", &a, &b, &c, &d) == 4) fragCase(a, b, c, d != 0, k);
+	else if (sscanf(k.c_str(), "fx:%d:%d:%d:%d:%d:%d:%d:%d:%d:%d:%d:%d", &v[0], &v[1], &v[2], &v[3], &v[4], &v[5], &v[6], &v[7], &v[8], &v[9], &v[10], &v[11]) == 12) fxCase(v[0], v + 1, v[4], v[5] != 0, v[6], v[7], v[8], v[9], v[10], v[11], k);
 	else if (sscanf(k.c_str(), "host:%d:%d:%d:%d:%d", &a, &b, &c, &d, &e) == 5) hostileCase(a, b, c, d, e, k);
 	else if (sscanf(k.c_str(), "send:%d:%d:%d", &a, &b, &c) == 3) sendCase(a, b != 0, c, k);
-	else if (sscanf(k.c_str(), "akey:%d", &a) == 1) acceptKeyCase(a, k);
+	else if (sscanf(k.c_str(), "sendv:%d:%d", &a, &b) == 2) sendVarCase(a, b != 0, k);
+	else if (sscanf(k.c_str(), "akey:%d", &a) == 1) acceptKeyCase(a, 0, 0, 0, 0, false, k);
+	else if (sscanf(k.c_str(), "akx:%d:%d:%d:%d:%d", &a, &b, &c, &d, &e) == 5) acceptKeyCase(a, b, c, d, e, true, k);
+	else if (sscanf(k.c_str(), "conn:%d:%d", &a, &b) == 2) connectCase(a, b, k);
+	else if (sscanf(k.c_str(), "echo:%d:%d", &a, &b) == 2) handshakeJob(0, a, 0, b);
 	else if (sscanf(k.c_str(), "handshake:%d:%d", &a, &b) == 2) { std::string sched; size_t bar = k.find('|'); if (bar != std::string::npos) sched = k.substr(bar + 1); handshakeJob(a, b, bar == std::string::npos ? 0 : &sched); }
+	else { fprintf(stderr, "s_c11_ws: unknown case '%s'\n", k.c_str()); exit(2); }
 }
+// all nondecreasing triples over the given cut values
+static std::vector<std::vector<int> > triples(const std::vector<int>& vals) { std::vector<std::vector<int> > r; for (size_t i = 0; i < vals.size(); i++) for (size_t j = i; j < vals.size(); j++) for (size_t l = j; l < vals.size(); l++) { std::vector<int> t; t.push_back(vals[i]); t.push_back(vals[j]); t.push_back(vals[l]); r.push_back(t); } return r; }
+static std::vector<int> upto(int n) { std::vector<int> v; for (int i = 0; i <= n; i++) v.push_back(i); return v; }
+static size_t streamSize(int len, bool masked) { return 2 + (len < 126 ? 0 : len < 65536 ? 2 : 8) + (masked ? 4 : 0) + len + 2 + (masked ? 4 : 0) + 3; }
 
+// wall seconds per family, kept in the part file (info.phase_seconds)
+static std::string g_phases; static double g_t0;
+static void phase(const char* name) { double t = vf::now_s(); if (!g_phases.empty()) g_phases += ", "; g_phases += fmt("\"%s\": %.1f", name, t - g_t0); g_t0 = t; }
 int main(int argc, char** argv) {
-	vf::init(argc, argv, "C11", "s_c11_ws");
+	vf::init(argc, argv, "C11", "s_c11_ws"); g_t0 = vf::now_s();
 	C_EVAL = vf::counter("evaluations"); C_DIST = vf::counter("distinct_nontrivial"); C_EXEC = vf::counter("traces"); C_POINTS = vf::counter("transitions"); vf::counter("states");
 	W_BADALLOC = vf::counter("w.absurd_lengths_refused_by_allocator"); W_LEN16 = vf::counter("w.frames_with_16bit_length"); W_LEN64 = vf::counter("w.frames_with_64bit_length"); W_MASKED = vf::counter("w.masked_frames"); W_FRAG = vf::counter("w.fragmented_messages"); W_PING_BETWEEN = vf::counter("w.ping_between_fragments");
 	W_HOSTILE_CLOSED = vf::counter("w.hostile_inputs_without_message"); W_HOSTILE_MSG = vf::counter("w.hostile_inputs_yielding_a_message"); W_NEG64 = vf::counter("w.length_fields_with_bit31_set"); W_HANDSHAKE = vf::counter("w.handshake_executions"); W_PREEMPT = vf::counter("w.executions_with_preemption");
+	W_CUT = vf::counter("w.truncated_streams"); W_CUT_INFRAME = vf::counter("w.streams_ending_inside_a_frame"); W_CUT_MIDMSG = vf::counter("w.streams_ending_between_fragments"); W_CLOSE = vf::counter("w.streams_with_close_frame"); W_CLOSE_REASON = vf::counter("w.close_reason_returned_by_receive"); W_CLOSE_MID = vf::counter("w.close_between_fragments"); W_CLOSE_CODE = vf::counter("w.close_codes_compared");
+	W_PONG_IN = vf::counter("w.pong_frames_received"); W_PING_EMPTY = vf::counter("w.empty_pings"); W_PING125 = vf::counter("w.pings_of_125_bytes"); W_TWO_CTL = vf::counter("w.streams_with_two_control_frames"); W_PONGS_CHECKED = vf::counter("w.streams_with_pongs_compared");
+	W_ACC = vf::counter("w.messages_seen_through_string_accessors"); W_NUL = vf::counter("w.messages_with_nul_seen_through_accessors"); W_NONCANON = vf::counter("w.noncanonical_length_forms_accepted"); W_BIGFRAG = vf::counter("w.fragments_of_126_bytes_or_more"); W_BIGLEN = vf::counter("w.payloads_above_70000"); W_CHUNKED = vf::counter("w.payloads_in_4096_byte_chunks");
+	W_SEND_FORMS = vf::counter("w.send_overloads_and_frame_types"); W_VAR = vf::counter("w.var_messages"); W_AKX = vf::counter("w.handshake_request_shapes"); W_AKX_NOSPACE = vf::counter("w.requests_without_space_after_colon"); W_AKX_HTTP = vf::counter("w.handshakes_through_httpserver_link");
+	W_CONN = vf::counter("w.connects_to_scripted_server"); W_CONN_FAIL = vf::counter("w.connects_refused"); W_CONN_OK = vf::counter("w.connects_accepted"); W_ECHO_BIG = vf::counter("w.large_echoes_over_a_filling_pipe"); W_HOSTILE_STRICT = vf::counter("w.hostile_streams_compared_exactly");
 	vsched::set_fatal_handler(onFatal);
 	vsched::set_state_probe(vnet::state_hash);
 	if (sha1b64("dGhlIHNhbXBsZSBub25jZQ==258EAFA5-E914-47DA-95CA-C5AB0DC85B11") != "s3pPLMBiTxaQ9kYGzzhZRbK+xOo=") { fprintf(stderr, "HARNESS ERROR: reference SHA-1/base64 fails the RFC 6455 vector\n"); return 2; }
@@ -267,10 +585,62 @@ int main(int argc, char** argv) {
 	if (T) for (int n = 1; n <= 70000; n++) lens.push_back(n);
 	else { for (int n = 1; n <= 3000; n++) lens.push_back(n); for (int n = 65000; n <= 66100; n++) lens.push_back(n); lens.push_back(16000); lens.push_back(16001); lens.push_back(32768); lens.push_back(70000); }
 	vf::parallel(lens.size(), [&](uint64_t i) { int nv = lens[i] <= 300 ? 6 : 4; for (int v = 0; v < nv; v++) run_case(fmt("len:%d:%d", lens[i], v)); }, 8);
+	phase("lengths");
+	// (1b) lengths above 70000, also with the payload arriving in 4096-byte chunks; boundary lengths in chunks
+	{
+		std::vector<int> big; big.push_back(1 << 17); big.push_back((1 << 20) - 1); big.push_back(1 << 20); big.push_back((1 << 20) + 1); big.push_back(1 << 22); if (T) { big.push_back(70001); big.push_back((1 << 22) + 1); big.push_back(3000000); }
+		int bnd[] = { 125, 126, 127, 4095, 4096, 4097, 65535, 65536, 65537, 70000 };
+		vf::parallel(big.size() * 6 + 10 * 2, [&](uint64_t i) { if (i < big.size() * 6) { int v = (int)(i % 6); run_case(fmt("len:%d:%d", big[i / 6], v < 4 ? v : v + 2)); } else { uint64_t j = i - big.size() * 6; run_case(fmt("len:%d:%d", bnd[j / 2], 6 + (int)(j % 2))); } });
+	}
+	phase("big_lengths");
+	// (1c) non-minimal length forms (16-bit form for lengths < 126, 64-bit form for lengths < 65536)
+	vf::parallel(T ? 1000 : 300, [&](uint64_t i) { int len = (int)i + 1; for (int mode = 1; mode <= 2; mode++) for (int v = 0; v < 6; v++) if (v < 4 || len <= 300) run_case(fmt("len:%d:%d:%d", len, v, mode)); }, 4);
+	phase("noncanonical");
+	// (1d) every stream of (1) for short messages and at the 16/64-bit boundary, ended at every byte offset
+	{
+		int smallMax = T ? 600 : 300, bw = T ? 64 : 24;
+		vf::parallel(smallMax, [&](uint64_t i) { int len = (int)i + 1; for (int mk = 0; mk < 2; mk++) { int n = (int)streamSize(len, mk); for (int off = 0; off <= n; off++) { run_case(fmt("cut:%d:%d:%d", len, mk, off)); if (len <= bw) run_case(fmt("cut:%d:%d:%d", len, mk | 2, off)); } } });
+		int bl[] = { 65535, 65536 };
+		std::vector<std::string> jobs;
+		for (int b = 0; b < 2; b++) for (int mk = 0; mk < 2; mk++) { int n = (int)streamSize(bl[b], mk); for (int off = 0; off <= n; off++) if (T || off <= 40 || off >= n - 40 || off % 4093 == 0 || off % 4096 <= 1) jobs.push_back(fmt("cut:%d:%d:%d", bl[b], mk, off)); }
+		vf::parallel(jobs.size(), [&](uint64_t i) { run_case(jobs[i]); }, 64);
+	}
+	phase("cut_streams");
 	// (2) masks
 	vf::parallel(256, [&](uint64_t m) { for (int len = 1; len <= 9; len++) run_case(fmt("mask:%d:%d", len, (int)m)); });
-	// (3) fragmentation with pings
+	phase("masks");
+	// (3) fragmentation with pings (older form: binary message, one ping 'pi')
 	for (int n = 1; n <= (T ? 6 : 5); n++) { int nc = (n + 1) * (n + 1) * (n + 1); vf::parallel(nc, [&](uint64_t cuts) { for (int ping = -1; ping <= 4; ping++) for (int mk = 0; mk < 2; mk++) run_case(fmt("frag:%d:%d:%d:%d", n, (int)cuts, ping, mk)); }, 4); }
+	phase("frag_old");
+	// (3b) every fragmentation with one control frame of every kind (pings of 0, 2, 125 bytes, pongs, Close frames) at every position, text and binary
+	for (int n = 1; n <= (T ? 6 : 5); n++) { std::vector<std::vector<int> > tr = triples(upto(n)); vf::parallel(tr.size(), [&](uint64_t t) { for (int op = 1; op <= 2; op++) for (int mk = 0; mk < 2; mk++) { for (int k1 = 1; k1 < NCTL; k1++) for (int p1 = 0; p1 <= 4; p1++) run_case(fmt("fx:%d:%d:%d:%d:%d:%d:%d:%d:0:0:-1:0", n, tr[t][0], tr[t][1], tr[t][2], op, mk, k1, p1)); if (op == 1) run_case(fmt("fx:%d:%d:%d:%d:%d:%d:0:0:0:0:-1:0", n, tr[t][0], tr[t][1], tr[t][2], op, mk)); } }); }
+	phase("frag_one_control");
+	// (3c) two control frames in one stream
+	for (int n = 1; n <= (T ? 4 : 2); n++) { std::vector<std::vector<int> > tr = triples(upto(n)); vf::parallel(tr.size() * 64, [&](uint64_t j) { uint64_t t = j / 64; int k1 = 1 + (int)(j % 64) / 8, k2 = 1 + (int)(j % 8); for (int op = (T ? 1 : 2); op <= 2; op++) for (int mk = 0; mk < 2; mk++) for (int p1 = 0; p1 <= 4; p1++) for (int p2 = p1; p2 <= 4; p2++) run_case(fmt("fx:%d:%d:%d:%d:%d:%d:%d:%d:%d:%d:-1:0", n, tr[t][0], tr[t][1], tr[t][2], op, mk, k1, p1, k2, p2)); }); }
+	phase("frag_two_controls");
+	// (3d) fragmented streams with and without a control frame, ended at every byte offset (whole, and byte by byte for the shortest)
+	for (int n = 1; n <= (T ? 4 : 3); n++) {
+		std::vector<std::vector<int> > tr = triples(upto(n)); static const int qk[] = { 0, 2, 4, 6, 8 };
+		vf::parallel(tr.size() * (T ? NCTL : 5), [&](uint64_t j) {
+			uint64_t t = j / (T ? NCTL : 5); int k1 = T ? (int)(j % NCTL) : qk[j % 5];
+			for (int op = (T ? 1 : 2); op <= 2; op++) for (int mk = 0; mk < 2; mk++) for (int p1 = 0; p1 <= (k1 ? 4 : 0); p1++) {
+				int total = n + 4 * 2 + 5 + (mk ? 20 : 0) + (k1 ? 2 + (mk ? 4 : 0) + (k1 == 3 ? 125 : k1 == 2 || k1 == 4 || k1 == 7 ? 2 : k1 == 8 ? 5 : 0) : 0);
+				for (int off = 0; off <= total; off++) for (int dl = 0; dl < (n <= 2 ? 2 : 1); dl++) run_case(fmt("fx:%d:%d:%d:%d:%d:%d:%d:%d:0:0:%d:%d", n, tr[t][0], tr[t][1], tr[t][2], op, mk, k1, p1, off, dl));
+			}
+		});
+	}
+	phase("frag_cut");
+	// (3e) fragments at and above the 16-bit and 64-bit length forms
+	{
+		std::vector<std::string> jobs; std::vector<int> ns; ns.push_back(126); ns.push_back(65536); if (T) { ns.push_back(127); ns.push_back(70000); }
+		for (size_t q = 0; q < ns.size(); q++) {
+			int n = ns[q]; std::set<int> cs; int cand[] = { 0, 1, 125, 126, 65535, 65536, n - 1, n }; for (int i = 0; i < 8; i++) if (cand[i] <= n) cs.insert(cand[i]);
+			std::vector<std::vector<int> > tr = triples(std::vector<int>(cs.begin(), cs.end()));
+			for (size_t t = 0; t < tr.size(); t++) for (int op = 1; op <= 2; op++) for (int mk = 0; mk < 2; mk++) for (int k1 = 0; k1 <= 2; k1 += 2) jobs.push_back(fmt("fx:%d:%d:%d:%d:%d:%d:%d:2:0:0:-1:0", n, tr[t][0], tr[t][1], tr[t][2], op, mk, k1));
+		}
+		vf::parallel(jobs.size(), [&](uint64_t i) { run_case(jobs[i]); }, 4);
+	}
+	phase("frag_big");
 	// (4) hostile headers: every first byte x second bytes around the length encodings x extended lengths x every cut
 	{
 		std::vector<int> b1s; for (int i = 0; i < 256; i++) b1s.push_back(i);
@@ -279,13 +649,24 @@ int main(int argc, char** argv) {
 			for (int e = 0; e < next; e++) { int ext = l7 == 126 ? (e == 4 ? 11 : e) : e; for (int cut = 0; cut <= hdr + 13; cut += (cut < hdr + 2 ? 1 : 11)) for (int dl = 0; dl < (T ? 2 : 1); dl++) run_case(fmt("host:%d:%d:%d:%d:%d", b0, b1, ext, cut, dl)); }
 		}, 4);
 	}
-	// (5) send side
-	vf::parallel(lens.size(), [&](uint64_t i) { if (T && lens[i] > 400 && lens[i] % 64 > 2 && !(lens[i] > 65400 && lens[i] < 65700)) return; for (int role = 0; role < 2; role++) for (int ty = 0; ty < 2; ty++) run_case(fmt("send:%d:%d:%d", lens[i], role, ty)); }, 8);
-	// (6) handshake: accept key on the wire, and client <-> server with an echoed message under all interleavings within the bound
+	phase("hostile");
+	// (5) send side: all overloads and frame types
+	vf::parallel(lens.size(), [&](uint64_t i) { if (T && lens[i] > 400 && lens[i] % 64 > 2 && !(lens[i] > 65400 && lens[i] < 65700)) return; for (int role = 0; role < 2; role++) for (int ty = 0; ty < 9; ty++) if (ty < 2 || lens[i] <= 300 || lens[i] == 65535 || lens[i] == 65536) if (ty < 5 || ty == 8 || lens[i] <= 125) run_case(fmt("send:%d:%d:%d", lens[i], role, ty)); }, 8);
+	{ int big[] = { 1 << 17, (1 << 20) - 1, 1 << 20, (1 << 20) + 1, 1 << 22 }; vf::parallel(5 * 2 * 3, [&](uint64_t i) { run_case(fmt("send:%d:%d:%d", big[i / 6], (int)(i % 2), (int)(i / 2 % 3))); }); }
+	vf::parallel(12, [&](uint64_t i) { run_case(fmt("sendv:%d:%d", (int)(i / 2), (int)(i % 2))); });
+	phase("send");
+	// (6) handshake: accept key on the wire in every request shape, connect() against scripted responses ended at every byte, large echoes over a pipe that
+	// fills, and client <-> server with an echoed message under all interleavings within the bound
 	vf::parallel(64, [&](uint64_t k) { run_case(fmt("akey:%d", (int)k)); });
+	vf::parallel(64 * 3, [&](uint64_t j) { for (int sep = 0; sep < 4; sep++) for (int conn = 0; conn < 2; conn++) for (int via = 0; via < 2; via++) run_case(fmt("akx:%d:%d:%d:%d:%d", (int)(j / 3), (int)(j % 3), sep, conn, via)); });
+	{ std::vector<std::string> jobs; for (int kind = 0; kind < NRESP; kind++) { int n = (int)respOf(kind, std::string(28, 'A')).size(); for (int cut = -1; cut <= n; cut++) jobs.push_back(fmt("conn:%d:%d", kind, cut)); } vf::parallel(jobs.size(), [&](uint64_t j) { run_case(jobs[j]); }, 8); }
+	{ int el[] = { 70001, (1 << 20) + 1, 1 << 22 }, ep[] = { 4096, 1 << 20 }; vf::parallel(T ? 6 : 4, [&](uint64_t i) { run_case(fmt("echo:%d:%d", el[i / 2], ep[i % 2])); }); }
+	phase("handshake_shapes_connect_echo");
 	{ int lensH[] = { 1, 5, 126 }; int nb = T ? 3 : 2; vf::parallel(3 * nb, [&](uint64_t i) { handshakeJob((int)(i % nb), lensH[i / nb], 0); }); }
-	vf::sample("binary frame of 65536 bytes, masked with key 01ff8001, followed by text frame END; delivered whole / header|rest / read(1)");
-	vf::sample("5-byte message fragmented 2|0|1|2 with a ping before fragment 2; hostile frame 8f ff 00 00 00 00 80 00 00 00 cut at every byte");
+	phase("handshake_interleavings"); vf::setinfo("phase_seconds", "{" + g_phases + "}");
+	vf::sample("binary frame of 65536 bytes, masked with key 01ff8001, followed by text frame END; delivered whole / header|rest / read(1) / in 4096-byte chunks; the same stream ended after every number of bytes");
+	vf::sample("5-byte text message fragmented 2|0|1|2 with a ping of 125 bytes before fragment 2 and a Close frame (4321 'bye') before fragment 3; hostile frame 8f ff 00 00 00 00 80 00 00 00 cut at every byte");
+	vf::sample("request 'sec-websocket-key:<key>' (lower case, no space) with 'Connection: keep-alive, Upgrade' through HttpServer::link; connect() to a server whose 101 response ends after 57 bytes");
 	vf::sample("WebSocket::connect(127.0.0.1:9000) against WebSocketServer::serve over a 9-byte pipe, echo of a 126-byte message, all schedules with <= 1 preemption");
 	return vf::finish();
 }
